@@ -82,15 +82,17 @@ def default_sched():
 
 
 def make_player(scn, seat, spec, role, overrides=None, vanish=None, team=None, version=18,
-                on_verdict=None):
+                on_verdict=None, pre_connect=None, post_connect=None):
     team = team if team is not None else scn['teams'][rb.side(seat)]
     kind = spec['kind']
     if kind == 'scripted':
         return ScriptedPlayer(seat, team, scn['script'], Style.from_json(spec['style']),
                               spec['seed'], ADDR, version=version, overrides=overrides,
-                              name=role, on_verdict=on_verdict, vanish=vanish)
+                              name=role, on_verdict=on_verdict, vanish=vanish,
+                              pre_connect=pre_connect, post_connect=post_connect)
     pk = {'bundled': 'script'}.get(kind, kind)
-    return BundledPlayer(seat, team, scn['script'], pk, ADDR, name=role, on_verdict=on_verdict)
+    return BundledPlayer(seat, team, scn['script'], pk, ADDR, name=role, on_verdict=on_verdict,
+                         pre_connect=pre_connect, post_connect=post_connect, version=version)
 
 
 def run_session(scn, sched, keep_sim=True, max_decisions=None, extra_setup=None):
@@ -104,8 +106,8 @@ def run_session(scn, sched, keep_sim=True, max_decisions=None, extra_setup=None)
     interrupts = []
     it = sched.get('interrupt')
     if it:
-        interrupts.append(Interrupt(it['role'], it['index'], KeyboardInterrupt,
-                                    kinds=it.get('kinds')))
+        interrupts.append(Interrupt(it['role'], it.get('index'), KeyboardInterrupt,
+                                    kind=it.get('kind'), n=it.get('n')))
     sim = Sim(policy, stalls=stalls, interrupts=interrupts,
               max_decisions=max_decisions or sched.get('max_decisions', 400_000),
               max_time=sched.get('max_time', 1e7),
